@@ -103,7 +103,8 @@ Inductive rung :=
 | REmptyBoth | RTooSmall | RNumPropLt3 | RMergeLenNe | RTransformLen | RRunIndexLen
 | RFaceIDLen | RVertFinite | RTransformFinite | RTangentFinite
 | RTangentLen        (* !tangent.empty() && tangent.size() != 4 * triVerts.size() *)
-| RRunIndexShape.    (* local runIndex: size != runs+1 || front != 0 || back != runEnd || !sorted *)
+| RRunIndexShape     (* local runIndex: size != runs+1 || front != 0 || back != runEnd || !sorted *)
+| RRunIndexShapeStrict. (* same, but rejecting equal neighbours too (adjacent_find greater_equal) *)
 
 Inductive item :=
 | IRung (r : rung) (e : error)
@@ -134,6 +135,12 @@ Fixpoint sortedb (l : list Z) : bool :=
   | x :: t => match t with [] => true | y :: _ => (x <=? y) && sortedb t end
   end.
 
+Fixpoint strictb (l : list Z) : bool :=
+  match l with
+  | [] => true
+  | x :: t => match t with [] => true | y :: _ => (x <? y) && strictb t end
+  end.
+
 Definition cond (r : rung) (m : meshgl) (s : st) : bool :=
   match r with
   | REmptyBoth => (numVert m =? 0) && (numTri m =? 0)
@@ -150,6 +157,8 @@ Definition cond (r : rung) (m : meshgl) (s : st) : bool :=
   | RTangentLen => negb (tanLen m =? 0) && negb (tanLen m =? 4 * runEnd m)
   | RRunIndexShape => negb (zlen (ri s) =? nRuns m + 1) || negb (hd 0 (ri s) =? 0) ||
                       negb (last (ri s) 0 =? runEnd m) || negb (sortedb (ri s))
+  | RRunIndexShapeStrict => negb (zlen (ri s) =? nRuns m + 1) || negb (hd 0 (ri s) =? 0) ||
+                            negb (last (ri s) 0 =? runEnd m) || negb (strictb (ri s))
   end.
 
 Fixpoint p2v_get (l : list (Z * Z)) (v : Z) : Z :=
@@ -309,6 +318,7 @@ Definition learn (f : facts) (it : item) : facts :=
   | IRung RFaceIDLen _ => mkFacts (fNumProp f) (fMergeLen f) (fTransLen f) true (fTanLen f) (fNorm f) (fShape f) (fMergeGe f) (fTriDone f)
   | IRung RTangentLen _ => mkFacts (fNumProp f) (fMergeLen f) (fTransLen f) (fFaceLen f) true (fNorm f) (fShape f) (fMergeGe f) (fTriDone f)
   | IRung RRunIndexShape _ => mkFacts (fNumProp f) (fMergeLen f) (fTransLen f) (fFaceLen f) (fTanLen f) (fNorm f) (fNorm f) (fMergeGe f) (fTriDone f)
+  | IRung RRunIndexShapeStrict _ => mkFacts (fNumProp f) (fMergeLen f) (fTransLen f) (fFaceLen f) (fTanLen f) (fNorm f) (fNorm f) (fMergeGe f) (fTriDone f)
   | INormaliseRuns => mkFacts (fNumProp f) (fMergeLen f) (fTransLen f) (fFaceLen f) (fTanLen f) true false (fMergeGe f) (fTriDone f)
   | IMergeLoop CGe _ => mkFacts (fNumProp f) (fMergeLen f) (fTransLen f) (fFaceLen f) (fTanLen f) (fNorm f) (fShape f) true (fTriDone f)
   | ITriLoop CGe _ => mkFacts (fNumProp f) (fMergeLen f) (fTransLen f) (fFaceLen f) (fTanLen f) (fNorm f) (fShape f) (fMergeGe f) true
